@@ -491,6 +491,13 @@ fn property_bias(prop: &str, mut c: CCfg, seed: u64) -> CCfg {
         }
         "C02" => {
             c.isolated_strays = r.chance(1, 3);
+            // C02 quantifies over fault placements too: a transport that reports a failure must
+            // not leave any call hanging either
+            if r.chance(1, 4) {
+                let op = *r.pick(&[Op::Send, Op::Send, Op::Send, Op::Ready, Op::Flush, Op::Next, Op::Eof]);
+                c.fault = Some((op, 1 + r.below(12)));
+                c.hooks = false;
+            }
         }
         "C05" => {
             c.abandon_pct = *r.pick(&[0, 0, 10]);
